@@ -204,7 +204,7 @@ Proof.
   destruct (N.eqb x y) eqn:E.
   - apply N.eqb_eq in E. subst y. destruct (f x) eqn:Ef; cbn [existsb orb andb].
     + now rewrite N.eqb_refl.
-    + rewrite IH, Ef. now rewrite andb_false_r.
+    + rewrite IH. apply andb_false_r.
   - destruct (f y); cbn [existsb orb]; rewrite ?E; exact IH.
 Qed.
 
@@ -265,3 +265,19 @@ Proof.
 Qed.
 
 End After.
+
+Theorem flags_exact_iff : forall rules env F order n fuel s k s',
+  build_cancel rules env F order n fuel s k = Cycle s' [] ->
+  forall x, let l := build_log s' (length (st_log s)) in
+  flagged s' x = true <->
+  (flagged s x = true /\ ~ (exists v, In (EComplete x v) l)) \/
+  (In (ECreate x) l /\ ~ (exists v, In (EComplete x v) l)).
+Proof.
+  intros rules env F order n fuel s k s' Hb x l. rewrite (flags_exact _ _ _ _ _ _ _ _ _ Hb x). fold l.
+  rewrite andb_true_iff, orb_true_iff, negb_true_iff, created_in_true.
+  assert (C : completed_in l x = false <-> ~ (exists v, In (EComplete x v) l)).
+  { rewrite <- completed_in_true. destruct (completed_in l x).
+    - split; [intros H; discriminate H | intros H; exfalso; now apply H].
+    - split; [intros _ H; discriminate H | reflexivity]. }
+  rewrite C. tauto.
+Qed.
